@@ -229,6 +229,38 @@ func Corruptions(spec *Spec, valid any) []Corruption {
 						}
 						out = append(out, Corruption{Value: rebuild(n), Path: cp(path, name), Kind: "missing required"})
 					}
+					// required_if_not: the property and every alternative removed - the property is what is missing.
+					// (Only if nothing else then becomes invalid: no other property's rule may name what was removed.)
+					if len(p.RequiredIfNot) > 0 && p.Default == nil {
+						removed := map[string]bool{name: true}
+						for _, alt := range p.RequiredIfNot {
+							removed[alt] = true
+						}
+						clean := true
+						for j := range s.Props {
+							q := &s.Props[j]
+							if removed[q.Name] {
+								if q.Name != name && (q.Required || q.Default != nil) {
+									clean = false // removing a required alternative is a fault of its own; a defaulted one comes back
+								}
+								continue
+							}
+							for _, r := range append(append([]string{}, q.RequiredIfNot...), q.RequiredIf...) {
+								if removed[r] {
+									clean = false
+								}
+							}
+						}
+						if clean {
+							n := map[string]any{}
+							for a, b := range m {
+								if !removed[a] {
+									n[a] = b
+								}
+							}
+							out = append(out, Corruption{Value: rebuild(n), Path: cp(path, name), Kind: "missing required-if-not"})
+						}
+					}
 				}
 			}
 		case KOneOfStr, KOneOfInt:
